@@ -18,6 +18,10 @@ Tie (H, three seams, no source hooks; the numba internals of xrspatial/viewshed.
           the driver consume the same operation list; visible sets are compared exactly.
   seam 3  end to end.  Public `viewshed()` against seam 2, plus the output rule.
 
+  wrapper seam   the public function with the two kernels it calls wrapped: observer cell, signed cell sizes, eye
+          elevation, target offset, the event arrays it sorted and split, `data` -- against Model/ViewshedWrapper.lean
+          (`vs_wrap`) and Model/ViewshedEvents.lean exactly, over coordinate / attribute kinds of the DataArray.
+
 Oracle / search: the O(n^2) list reference (for every centre event scan all active cells) against the
 public function; a numba-compiled version of it runs ~10^4 terrains per second in `search`.
 """
@@ -636,19 +640,100 @@ def gen_terrain(rng, maxs):
     else:
         a = [[float(rng.choice([0, 3]))] * w for _ in range(h)]
         a = [[a[0][0]] * w for _ in range(h)]
-    dtype = rng.choice(["float64", "float64", "float32", "int32", "int64"])
-    if kind in ("dyadic", "rowrelief") and dtype.startswith("int"):
+    dtype = rng.choice(DTYPES)
+    if kind in ("dyadic", "rowrelief") and not dtype.startswith("float"):
         dtype = "float64"
-    if kind == "bumps" and dtype.startswith("int"):
+    if kind == "bumps" and not dtype.startswith("float"):
         a = [[float(int(x)) for x in row] for row in a]
-    oe = rng.choice([0, 0, 1, -1, 5])
+    if dtype.startswith("uint"):
+        lo = min(min(row) for row in a)
+        if lo < 0:
+            a = [[x - lo for x in row] for row in a]
+    if dtype in ("uint8", "int8") and rng.random() < 0.3 and kind in ("int", "alphabet", "plateau", "flat"):
+        # elevations near the top of the dtype's range: terrain + observer_elev does not fit the raster's own dtype
+        top = 253.0 if dtype == "uint8" else 125.0
+        hi = max(max(row) for row in a)
+        a = [[x + (top - hi) for x in row] for row in a]
+        if dtype == "int8":
+            a = [[max(x, -128.0) for x in row] for row in a]
+    oe = rng.choice([0, 0, 1, -1, 5, 0.5, -0.5])
     if kind == "rowrelief":
         oe = rng.choice([0, 1, 1, 0.5, 2])
-    return dict(kind=kind, dtype=dtype, a=a, vr=vr, vc=vc,
-                oe=oe, te=rng.choice([0, 0, 2, 1, 0.5]),
-                dx=rng.choice([1.0, 1.0, 2.0, 0.5]), dy=rng.choice([1.0, 1.0, 0.5, 2.0]),
-                x0=rng.choice([0.0, 10.0, -3.0]), y0=rng.choice([0.0, 5.0]),
-                off=rng.choice([0.0, 0.0, 0.25, -0.25]))
+    c = dict(kind=kind, dtype=dtype, a=a, vr=vr, vc=vc, oe=oe, te=rng.choice([0, 0, 2, 1, 0.5]))
+    # cell-size scale class: 2^k coordinate units per (unit) cell, k from -20 (~1e-6: arc-second lon / lat grids and finer)
+    # to +20 (~1e6).  The heights are scaled along, so the model is the same up to an exact power of two: same gradients,
+    # same verdicts, same vertical angles -- and everything stays dyadic for the exact seams.
+    k = rng.choice(SCALES)
+    if k != 0:
+        sc = 2.0 ** k
+        if not c["dtype"].startswith("float"):
+            c["dtype"] = rng.choice(["float64", "float64", "float32"])
+        c["a"] = [[x * sc for x in row] for row in a]
+        c["oe"], c["te"] = c["oe"] * sc, c["te"] * sc
+    c["scale"] = k
+    c.update(gen_coords(rng, 2.0 ** k))
+    return c
+
+
+SCALES = [0, 0, 0, 0, -20, -12, -10, -10, 10, 20]
+
+
+DTYPES = ["float64", "float64", "float32", "int32", "int64", "int16", "uint8", "uint16", "int8"]
+
+# Coordinate / attribute kinds of the DataArray handed to the public function.  Steps and origins are dyadic, so that
+# `c0 + j * step` and `(c[-1] - c[0]) / (n - 1)` are exact in float64 (the exact seam 0 and the exact wrapper seam need that).
+STEPS = [1.0, 1.0, 2.0, 0.5, 0.25, 1.5, 0.75, 30.0]
+X0S = [0.0, 10.0, -3.0, 500000.0, -0.75]
+Y0S = [0.0, 5.0, 4100000.0, -7.5]
+OFFS = [0.0, 0.0, 0.0, 0.25, -0.25, 0.375, -0.4375]
+
+
+def gen_coords(rng, scale=1.0):
+    """the coordinate arrays (ascending / descending, fractional steps, non-square cells, offsets), where the observer is
+    given (at a centre, off-centre -- the nearest centre rule --, beyond the edge cell's centre: clamped to the raster's
+    edge), and the `res` attribute (none / consistent with the coordinates / STALE: disagreeing with them, scalar or
+    per-axis; what xarray leaves behind after a strided selection, a coarsen with keep_attrs, rescaled coordinates)"""
+    dx = rng.choice(STEPS) * rng.choice([1, 1, -1]) * scale
+    dy = rng.choice(STEPS) * rng.choice([1, -1, -1]) * scale
+    if rng.random() < 0.4:
+        dy = math.copysign(abs(dx), dy)                     # square cells
+    c = dict(dx=dx, dy=dy, x0=rng.choice(X0S), y0=rng.choice(Y0S), off=0.0,
+             offx=rng.choice(OFFS), offy=rng.choice(OFFS))
+    k = rng.choice(["none", "ok", "ok", "stale", "stale", "stale"])
+    form = rng.choice(["tuple", "tuple", "list", "scalar", "array"])
+    if k == "none":
+        c.update(res_kind="none", res_form="none", res_val=None)
+    elif k == "ok":
+        # consistent with the coordinates: the magnitudes (what rioxarray / the generators of xrspatial write) or the signed steps
+        sgn = rng.choice([True, False])
+        val = [dx if sgn else abs(dx), dy if sgn else abs(dy)]
+        if form == "scalar":
+            if abs(dx) == abs(dy):
+                val = abs(dx)
+            else:
+                form = "tuple"
+        c.update(res_kind="ok", res_form=form, res_val=val)
+    else:
+        fx, fy = rng.choice([(2, 1), (1, 2), (0.5, 1), (2, 2), (1, 3), (4, 0.5), (3, 3)])
+        if form == "scalar":
+            val = rng.choice([abs(dx) * 2, abs(dy) * 3, 1.0 if (abs(dx), abs(dy)) != (1.0, 1.0) else 7.0, 1 if abs(dx) != 1.0 else 2])
+            if val in (abs(dx), abs(dy)) and abs(dx) == abs(dy):
+                val = abs(dx) * 2
+        else:
+            val = [abs(dx) * fx, abs(dy) * fy]
+        c.update(res_kind="stale", res_form=form, res_val=val)
+    return c
+
+
+def coord_tags(c):
+    offx, offy = c.get("offx", c.get("off", 0.0)), c.get("offy", c.get("off", 0.0))
+    frac = any(abs(v) != int(abs(v)) for v in (c["dx"], c["dy"]))
+    return ["coords:y-" + ("descending" if c["dy"] < 0 else "ascending"), "coords:x-" + ("descending" if c["dx"] < 0 else "ascending"),
+            "step:" + ("fractional" if frac else "integral"),
+            "origin:" + ("large" if max(abs(c["x0"]), abs(c["y0"])) > 1000 else "small"),
+            "cell-size:2^" + str(c.get("scale", 0)),
+            "observer-given:" + ("at-centre" if offx == 0 and offy == 0 else "off-centre"),
+            "attrs:res-" + c.get("res_kind", "ok") + ("" if c.get("res_kind", "ok") == "none" else "-" + c.get("res_form", "tuple"))]
 
 
 def terrain_setup(c):
@@ -659,20 +744,45 @@ def terrain_setup(c):
     ys = c["y0"] + c["dy"] * np.arange(h, dtype=np.float64)
     ew = (xs[-1] - xs[0]) / (w - 1)
     ns = (ys[-1] - ys[0]) / (h - 1)
-    velev = a[c["vr"], c["vc"]] + c["oe"]
+    # the eye: terrain at the observer's cell + observer height, as numbers (NOT in the raster's dtype: a narrow or unsigned
+    # integer dtype would wrap around, or refuse a negative height)
+    velev = float(a[c["vr"], c["vc"]]) + c["oe"]
     vt = float(c["te"]) if c["te"] > 0 else 0.0
     return a, xs, ys, float(ew), float(ns), float(velev), vt
+
+
+def res_attrs(c):
+    """the attributes of the DataArray: cases recorded before the attrs dimension existed carry the consistent tuple"""
+    form = c.get("res_form")
+    if form is None:
+        return {"res": (c["dx"], c["dy"])}
+    if form == "none":
+        return {}
+    v = c["res_val"]
+    if form == "scalar":
+        return {"res": v}
+    if form == "tuple":
+        return {"res": tuple(v)}
+    if form == "list":
+        return {"res": list(v)}
+    return {"res": np.array(v, dtype=np.float64)}
+
+
+def observer_xy(c, xs, ys):
+    """the observer in data space: at / off the centre of cell (vr, vc), never nearer to another centre; a position beyond
+    the centre of an edge cell is clamped to the raster's edge (outside, the function raises ValueError)"""
+    x = xs[c["vc"]] + c.get("offx", c.get("off", 0.0)) * c["dx"]
+    y = ys[c["vr"]] + c.get("offy", c.get("off", 0.0)) * c["dy"]
+    x = min(max(x, xs.min()), xs.max())
+    y = min(max(y, ys.min()), ys.max())
+    return float(x), float(y)
 
 
 def public_viewshed(c):
     import xarray as xr
     a, xs, ys, ew, ns, velev, vt = terrain_setup(c)
-    da = xr.DataArray(a.copy(), dims=["y", "x"], coords={"y": ys, "x": xs}, attrs={"res": (c["dx"], c["dy"])})
-    # the observer is given in data space, possibly off the cell centre (nearest cell is selected)
-    x = xs[c["vc"]] + c["off"] * c["dx"]
-    y = ys[c["vr"]] + c["off"] * c["dy"]
-    x = min(max(x, xs.min()), xs.max())
-    y = min(max(y, ys.min()), ys.max())
+    da = xr.DataArray(a.copy(), dims=["y", "x"], coords={"y": ys, "x": xs}, attrs=res_attrs(c))
+    x, y = observer_xy(c, xs, ys)
     out = V().viewshed(da, x=x, y=y, observer_elev=c["oe"], target_elev=c["te"])
     return np.asarray(out.values), out
 
@@ -750,7 +860,8 @@ _GEO_CACHE = {}
 class GeoModel:
     """everything that does not depend on the elevations, for one (h, w, vr, vc, ew, ns)"""
 
-    def __init__(self, h, w, vr, vc, ew, ns):
+    def __init__(self, h, w, vr, vc, ew, ns, pairs=True):
+        """`pairs=False`: no n x n tables (large rasters; `visible_big` evaluates the pairs on the fly, compiled)"""
         from fractions import Fraction
         self.h, self.w, self.vr, self.vc, self.ew, self.ns = h, w, vr, vc, ew, ns
         cells = [(r_, c_) for r_ in range(h) for c_ in range(w) if (r_, c_) != (vr, vc)]
@@ -792,6 +903,9 @@ class GeoModel:
         self.dlo = np.arctan2(cx * ent[:, 1] - cy * ent[:, 0], cx * ent[:, 0] + cy * ent[:, 1])   # < 0
         self.dhi = np.arctan2(cx * ext[:, 1] - cy * ext[:, 0], cx * ext[:, 0] + cy * ext[:, 1])   # > 0
         assert (self.dlo < 0).all() and (self.dhi > 0).all()
+        self.cx, self.cy, self.ent, self.ext, self.kr, self.pairs = cx, cy, ent, ext, kr, pairs
+        if not pairs:
+            return
         # pair tables, [target, blocker]
         tx, ty = cx[:, None], cy[:, None]
         ce = ent[None, :, 0] * ty - ent[None, :, 1] * tx          # cross(enter_b, t)
@@ -830,6 +944,8 @@ class GeoModel:
         on a blocker whose span only touches the bearing)"""
         e0, e1, e2, g0, g1, g2 = self.nodes(a, velev)
         gt = np.arctan2(e1 + vt - velev, self.dist_c)
+        if not self.pairs:
+            return geo_visible_big(self, a, velev, vt), gt
         D = self.D
         with np.errstate(invalid="ignore", divide="ignore"):
             cg = np.where(D < 0, g1[None, :] + (g0 - g1)[None, :] * D / self.dlo[None, :],
@@ -843,14 +959,89 @@ class GeoModel:
         return out, gt
 
 
+_GEO_BIG = None
+
+
+def geo_big():
+    """numba-compiled `GeoModel.visible` without the n x n tables: every target against every other cell, the pair
+    quantities (exact integer cross products, the signed angle between the two centres) computed on the fly"""
+    global _GEO_BIG
+    if _GEO_BIG is not None:
+        return _GEO_BIG
+    import numba as nb
+    TOL = GEO_TOL
+
+    @nb.njit
+    def kernel(a, rows, cols, ent_nb, ext_nb, dist_e, dist_c, dist_x, dlo, dhi, cx, cy, ent, ext, kr, velev, vt, out):
+        n = rows.shape[0]
+        w = a.shape[1]
+        flat = a.ravel()
+        g0 = np.empty(n)
+        g1 = np.empty(n)
+        g2 = np.empty(n)
+        gt = np.empty(n)
+        for i in range(n):
+            own = flat[rows[i] * w + cols[i]]
+            e0 = own
+            if ent_nb[i, 0] >= 0:
+                e0 = (flat[ent_nb[i, 0]] + flat[ent_nb[i, 1]] + flat[ent_nb[i, 2]] + flat[ent_nb[i, 3]]) / 4.0
+            e2 = own
+            if ext_nb[i, 0] >= 0:
+                e2 = (flat[ext_nb[i, 0]] + flat[ext_nb[i, 1]] + flat[ext_nb[i, 2]] + flat[ext_nb[i, 3]]) / 4.0
+            g0[i] = np.arctan2(e0 - velev, dist_e[i])
+            g1[i] = np.arctan2(own - velev, dist_c[i])
+            g2[i] = np.arctan2(e2 - velev, dist_x[i])
+            gt[i] = np.arctan2(own + vt - velev, dist_c[i])
+        for t in range(n):
+            tx = cx[t]
+            ty = cy[t]
+            verdict = 1
+            for b in range(n):
+                if kr[b] >= kr[t]:
+                    continue
+                ce = ent[b, 0] * ty - ent[b, 1] * tx
+                cxx = tx * ext[b, 1] - ty * ext[b, 0]
+                if ce > 0 and cxx > 0:
+                    d = np.arctan2(float(cx[b] * ty - cy[b] * tx), float(cx[b] * tx + cy[b] * ty))
+                    if d < 0:
+                        cg = g1[b] + (g0[b] - g1[b]) * d / dlo[b]
+                    else:
+                        cg = g1[b] + (g2[b] - g1[b]) * d / dhi[b]
+                    if cg - gt[t] > TOL:
+                        verdict = 0
+                        break
+                    if cg - gt[t] >= -TOL:
+                        verdict = -1
+                elif ce == 0 and ent[b, 0] * tx + ent[b, 1] * ty > 0:
+                    if g0[b] - gt[t] > -TOL:
+                        verdict = -1
+                elif cxx == 0 and ext[b, 0] * tx + ext[b, 1] * ty > 0:
+                    if g2[b] - gt[t] > -TOL:
+                        verdict = -1
+            out[t] = verdict
+
+    _GEO_BIG = kernel
+    return kernel
+
+
+def geo_visible_big(g, a, velev, vt):
+    out = np.empty(g.n, dtype=np.int64)
+    geo_big()(np.ascontiguousarray(a, dtype=np.float64), g.rows, g.cols, g.ent_nb, g.ext_nb, g.dist_e, g.dist_c, g.dist_x,
+              g.dlo, g.dhi, g.cx.astype(np.int64), g.cy.astype(np.int64), g.ent, g.ext, g.kr, float(velev), float(vt), out)
+    return out
+
+
 def geo_model(h, w, vr, vc, ew, ns):
     k = (h, w, vr, vc, ew, ns)
     g = _GEO_CACHE.get(k)
     if g is None:
         if len(_GEO_CACHE) > 64:
             _GEO_CACHE.clear()
-        g = _GEO_CACHE[k] = GeoModel(*k)
+        g = _GEO_CACHE[k] = GeoModel(*k, pairs=h * w <= BIG)
     return g
+
+
+BIG = 900        # cells; above, the n x n pair tables are not built (`geo_visible_big` evaluates the pairs on the fly)
 
 
 def geo_reference(c):
@@ -993,6 +1184,273 @@ def oracle_terrain(c):
             if p != -1.0 and not (0.0 <= p <= 180.0):
                 return f"cell ({i},{j}) holds {p} outside [0,180]", None
     return None, (ops, ev, data, ref, pub, notes)
+
+
+# ---------------------------------------------------------------- the wrapper seam: what `_viewshed_cpu` feeds the kernels
+def record_wrapper(c, x=None, y=None):
+    """the public function with the two kernels it calls -- module globals of viewshed.py -- wrapped (no source hook):
+    returns (output array, what `_init_event_list` and `_viewshed_cpu_sweep` were called with, the DataArray)"""
+    import inspect
+    import xarray as xr
+    v = V()
+    a, xs, ys, ew, ns, velev, vt = terrain_setup(c)
+    da = xr.DataArray(a.copy(), dims=["y", "x"], coords={"y": ys, "x": xs}, attrs=res_attrs(c))
+    if x is None:
+        x, y = observer_xy(c, xs, ys)
+    rec = {}
+    o_init, o_sweep = v._init_event_list, v._viewshed_cpu_sweep
+    sig_i, sig_s = inspect.signature(o_init.py_func), inspect.signature(o_sweep.py_func)
+
+    def w_init(*ar, **kw):
+        b = sig_i.bind(*ar, **kw).arguments
+        rec["init"] = dict(raster_dtype=str(b["raster"].dtype), raster=np.array(b["raster"]), vp_row=int(b["vp_row"]),
+                           vp_col=int(b["vp_col"]), event_list_shape=tuple(b["event_list"].shape),
+                           event_list_zero=not b["event_list"].any(), data_shape=tuple(b["data"].shape),
+                           data_zero=not b["data"].any(), grid_shape=tuple(b["visibility_grid"].shape),
+                           grid_filled=bool((b["visibility_grid"] == -1.0).all()))
+        return o_init(*ar, **kw)
+
+    def w_sweep(*ar, **kw):
+        b = sig_s.bind(*ar, **kw).arguments
+        rec["sweep"] = dict(raster_dtype=str(b["raster"].dtype), vr=int(b["vp_row"]), vc=int(b["vp_col"]),
+                            velev=float(b["vp_elev"]), vt=float(b["vp_target"]), ew=float(b["ew_res"]), ns=float(b["ns_res"]),
+                            rcts=np.array(b["event_rcts"]), aes=np.array(b["event_aes"]), data=np.array(b["data"]),
+                            rcts_dtype=str(b["event_rcts"].dtype), aes_dtype=str(b["event_aes"].dtype))
+        return o_sweep(*ar, **kw)
+    v._init_event_list, v._viewshed_cpu_sweep = w_init, w_sweep
+    try:
+        out = v.viewshed(da, x=x, y=y, observer_elev=c["oe"], target_elev=c["te"])
+    finally:
+        v._init_event_list, v._viewshed_cpu_sweep = o_init, o_sweep
+    return np.asarray(out.values), rec, da
+
+
+def wrap_request(c, x, y):
+    from fractions import Fraction
+    a, xs, ys, ew, ns, velev, vt = terrain_setup(c)
+    F = lambda q: tok(Fraction(float(q)))
+    return (f"vs_wrap grid={grid_tok(a.astype(np.float64))} xs={','.join(F(t) for t in xs)} ys={','.join(F(t) for t in ys)} "
+            f"x={F(x)} y={F(y)} oe={F(c['oe'])} te={F(c['te'])}")
+
+
+def compare_wrapper(c, rec, rep, rep_ev):
+    """what the real wrapper handed to the kernels against Model/ViewshedWrapper.lean (`vs_wrap`: observer cell, cell sizes,
+    eye elevation, target offset -- exact rationals) and, for the event arrays it sorted and split itself, against
+    Model/ViewshedEvents.lean at the model's observer cell (`vs_events`)"""
+    from fractions import Fraction
+    out = []
+    if "sweep" not in rec or "init" not in rec:
+        return ["the wrapper did not call `_init_event_list` and `_viewshed_cpu_sweep`"]
+    sw, ini = rec["sweep"], rec["init"]
+    if rep.startswith(("err", "bad")):
+        return [f"model: {rep[:120]}; real wrapper passes observer {(sw['vr'], sw['vc'])}, cell sizes {(sw['ew'], sw['ns'])}"]
+    f = dict(p.split("=", 1) for p in rep.split(" ") if "=" in p)
+    for name, real, model in (("observer row", sw["vr"], int(f["vr"])), ("observer column", sw["vc"], int(f["vc"])),
+                              ("ew_res", Fraction(sw["ew"]), untok_exact(f["ew"])), ("ns_res", Fraction(sw["ns"]), untok_exact(f["ns"])),
+                              ("viewpoint elevation", Fraction(sw["velev"]), untok_exact(f["velev"])),
+                              ("viewpoint target", Fraction(sw["vt"]), untok_exact(f["vt"]))):
+        if real != model:
+            out.append(f"{name}: the wrapper passes {float(real) if not isinstance(real, int) else real}, model {float(model) if not isinstance(model, int) else model}")
+    if (ini["vp_row"], ini["vp_col"]) != (sw["vr"], sw["vc"]):
+        out.append(f"`_init_event_list` gets observer {(ini['vp_row'], ini['vp_col'])}, the sweep {(sw['vr'], sw['vc'])}")
+    h, w = len(c["a"]), len(c["a"][0])
+    want = dict(raster_dtype="float64", event_list_shape=(3 * (h * w - 1), 7), event_list_zero=True, data_shape=(3, w),
+                data_zero=True, grid_shape=(h, w), grid_filled=True)
+    for k, v_ in want.items():
+        if ini[k] != v_:
+            out.append(f"`_init_event_list` argument property {k}: {ini[k]}, expected {v_}")
+    a64 = np.array(c["a"], dtype=np.float64).astype(c["dtype"]).astype(np.float64)
+    if not np.array_equal(ini["raster"], a64):
+        out.append("`_init_event_list` does not get the terrain cast to float64")
+    if (sw["raster_dtype"], sw["rcts_dtype"], sw["aes_dtype"]) != ("float64", "int64", "float64"):
+        out.append(f"dtypes passed to the sweep (raster, event_rcts, event_aes): {(sw['raster_dtype'], sw['rcts_dtype'], sw['aes_dtype'])}")
+    if out or rep_ev is None:
+        return out
+    if rep_ev.startswith(("err", "bad")):
+        return ["driver (vs_events): " + rep_ev[:200]]
+    g = dict(p.split("=", 1) for p in rep_ev.split(" ") if "=" in p)
+    mev = [t.split(":") for t in g.get("ev", "").split(";") if t]
+    if len(mev) != len(sw["rcts"]) or len(mev) != len(sw["aes"]):
+        return [f"{len(sw['rcts'])} events passed to the sweep, {len(mev)} model events"]
+    for k, m in enumerate(mev):
+        real = tuple(int(t) for t in sw["rcts"][k])
+        if real != tuple(int(t) for t in m[:3]):
+            out.append(f"sorted position {k}: the wrapper passes event {real}, model {tuple(int(t) for t in m[:3])}")
+            break
+        if tuple(Fraction(float(t)) for t in sw["aes"][k][1:4]) != tuple(untok_exact(t) for t in m[5:8]):
+            out.append(f"event {real}: elevations passed {tuple(float(t) for t in sw['aes'][k][1:4])} differ from the model's")
+            break
+    if k_nondecreasing(sw["aes"][:, 0]) is False:
+        out.append("the bearings of the events passed to the sweep are not sorted")
+    mdata = [tuple(untok_exact(t) for t in d.split(":")) for d in g.get("data", "").split(";") if d]
+    rdata = [tuple(Fraction(float(sw["data"][k][j])) for k in range(3)) for j in range(sw["data"].shape[1])]
+    if mdata != rdata:
+        out.append("the observer-row buffer `data` passed to the sweep differs from the model's")
+    return out
+
+
+def k_nondecreasing(v):
+    return bool(np.all(v[1:] >= v[:-1]))
+
+
+def oracle_public(c, pub):
+    """the public function's output against the line-of-sight model evaluated on the terrain geometry alone -- cell sizes
+    from the COORDINATES, observer = the cell whose centre is nearest to the given position (checked here, not taken from the
+    generator) -- and the output rule.  Light version of `oracle_terrain` (no event / node comparison, no list reference:
+    a cell whose verdict hinges on a tie is only checked for the output rule when reported visible)."""
+    a, xs, ys, ew, ns, velev, vt = terrain_setup(c)
+    x, y = observer_xy(c, xs, ys)
+    vr, vc = c["vr"], c["vc"]
+    dy_, dx_ = np.abs(ys - y), np.abs(xs - x)
+    if int(np.argmin(dy_)) != vr or int(np.argmin(dx_)) != vc or (dy_ == dy_[vr]).sum() != 1 or (dx_ == dx_[vc]).sum() != 1:
+        return None       # the nearest centre is not unique / not the intended cell: outside this oracle
+    if pub.shape != a.shape:
+        return f"output shape {pub.shape}"
+    if float(pub[vr, vc]) != 180.0:
+        where = [tuple(int(t) for t in q) for q in np.argwhere(pub == 180.0)]
+        return (f"the observer's cell ({vr},{vc}) -- the cell whose centre is nearest to the observer (x={x}, y={y}) -- holds "
+                f"{float(pub[vr, vc])}, not 180 (180 is at {where})")
+    a64 = a.astype(np.float64)
+    geo = geo_reference(c)
+    for (i, j), vis in geo.items():
+        p = float(pub[i, j])
+        if vis is not None and (p != -1.0) != vis:
+            return (f"cell ({i},{j}) is {'invisible' if p == -1.0 else 'visible'} in viewshed() but "
+                    f"{'visible' if vis else 'invisible'} in the line-of-sight model evaluated on the terrain geometry "
+                    f"(cell sizes = coordinate spacing {(ew, ns)})")
+        if p != -1.0:
+            dist = math.hypot((j - vc) * ew, (i - vr) * ns)
+            e = 90.0 + math.degrees(math.atan2((a64[i, j] + vt) - velev, dist))
+            if abs(p - e) > 1e-9 * 180:
+                return (f"cell ({i},{j}) holds {p}, the output rule gives {e} (horizontal distance {dist} from the coordinate "
+                        f"spacing {(ew, ns)}, attrs {res_attrs(c)})")
+            if not (0.0 <= p <= 180.0):
+                return f"cell ({i},{j}) holds {p} outside [0,180]"
+    return None
+
+
+def gen_long_thin(rng):
+    """a long thin raster (3..5 rows, 1200..1700 columns), flat but for a few low bumps 500..1400 cells from the observer,
+    who stands in a corner: there the bearings of distinct events (the centre of a far cell, a corner of a nearer one) come
+    within a microradian of each other without being equal, and the model is decided by their exact order.  The bumps
+    GRAZE: a bump `dr` rows off the observer's row has the height that puts its entering / exiting corner (a quarter of
+    it: the mean of the four cells meeting there) on the sight line to the cells `k` times as far whose bearing passes
+    closest to that corner -- so that the bump, and nothing else, decides whether those cells are seen."""
+    h, w = rng.choice([3, 4, 4, 5]), rng.randrange(1200, 1701)
+    west = rng.random() < 0.65
+    vr = rng.choice([0, h - 1])
+    vc = rng.randrange(0, 3) if west else w - 1 - rng.randrange(0, 3)
+    base = float(rng.choice([0, 0, 1]))
+    a = [[base] * w for _ in range(h)]
+    oe = rng.choice([1, 1, 2, 0.5])
+    for _ in range(rng.randrange(5, 9)):
+        dr = min(rng.choice([1, 1, 2, 2, 3, 4]), h - 1)
+        side = "enter" if (rng.random() < 0.15 and dr + 1 <= h - 1) else "exit"
+        k = dr / (dr - 0.5) if side == "exit" else (dr + 1) / (dr + 0.5)
+        d = int(rng.uniform(0.85, 0.99) * (w - 8) / k) - rng.randrange(0, 40)
+        row = vr + dr if vr == 0 else vr - dr
+        col = vc + d if west else vc - d
+        a[row][col] = base + 4.0 * oe * (1.0 - 1.0 / k)
+    c = dict(kind="long-thin", dtype=rng.choice(["float64", "float64", "float32"]), a=a, vr=vr, vc=vc, oe=oe,
+             te=0, scale=0)
+    c.update(gen_coords(rng))
+    return c
+
+
+def long_thin(r, n):
+    for s_ in range(n):
+        c = gen_long_thin(r.rng)
+        h, w = len(c["a"]), len(c["a"][0])
+        r.case(case_key(c), desc=dict(c, a=f"{h}x{w}, flat + far bumps") if s_ == 0 else None, nontrivial=True,
+               tags=["terrain:long-thin", "dtype:" + c["dtype"], "size:>700-long"] + coord_tags(c))
+        try:
+            pub, _ = public_viewshed(c)
+        except Exception as ex:
+            r.fail("raises", f"viewshed raised {type(ex).__name__}: {ex}", c)
+            continue
+        why = oracle_public(c, pub)
+        if why:
+            r.fail("visibility", why, c)
+        r.tag("long-thin:cells-judged-by-the-O(n^2)-reference", h * w - 1)
+
+
+def gen_wrapper_case(rng, maxs):
+    c = gen_terrain(rng, maxs)
+    c["kind"] = "wrap-" + c["kind"]
+    return c
+
+
+def wrapper_seam(r, n, maxs):
+    """many small terrains x coordinate / attrs kinds through the public function: (1) the light geometric oracle;
+    (2) what the wrapper passes to the kernels against Model/ViewshedWrapper.lean + Model/ViewshedEvents.lean, exactly;
+    (3) observers exactly half way between two centres and outside the raster: model vs real only (the tie rule, ValueError);
+    (4) the DataArray afterwards: cast to float64 in place (the documented exception), coordinates and attrs untouched"""
+    reqs, meta = [], []
+    for s_ in range(n):
+        c = gen_wrapper_case(r.rng, maxs)
+        a, xs, ys, ew, ns, velev, vt = terrain_setup(c)
+        h, w = a.shape
+        mode = r.rng.choice(["in", "in", "in", "in", "in", "in", "tie", "outside"])
+        x, y = observer_xy(c, xs, ys)
+        if mode == "tie":
+            # exactly half way between two centres in one or both axes
+            if r.rng.random() < 0.7 and c["vc"] + 1 < w:
+                x = float(xs[c["vc"]] + 0.5 * c["dx"])
+            if r.rng.random() < 0.7 and c["vr"] + 1 < h:
+                y = float(ys[c["vr"]] + 0.5 * c["dy"])
+        elif mode == "outside":
+            if r.rng.random() < 0.5:
+                x = float(r.rng.choice([xs.min() - abs(c["dx"]) * r.rng.choice([0.25, 1, 3]), xs.max() + abs(c["dx"]) * r.rng.choice([0.25, 1])]))
+            else:
+                y = float(r.rng.choice([ys.min() - abs(c["dy"]) * r.rng.choice([0.25, 1]), ys.max() + abs(c["dy"]) * r.rng.choice([0.25, 1, 3])]))
+        key = dict(c, mode=mode, x=x, y=y)
+        r.case(case_key(key), desc=dict(key, a="..") if s_ == 0 else None, nontrivial=True,
+               tags=["wrapper:" + mode, "dtype:" + c["dtype"], f"oe:{c['oe']}", f"te:{c['te']}",
+                     "cells:square" if abs(c["dx"]) == abs(c["dy"]) else "cells:non-square"] + coord_tags(c))
+        try:
+            pub, rec, da = record_wrapper(c, x, y)
+            err = None
+        except Exception as ex:
+            pub, rec, da, err = None, {}, None, type(ex).__name__
+        reqs.append(wrap_request(c, x, y))
+        meta.append((c, mode, x, y, pub, rec, err))
+        if err is not None and mode != "outside":
+            r.fail("raises", f"viewshed raised {err} for an observer inside the raster", c)
+            continue
+        if err is None:
+            # (4) the input object afterwards
+            if not (np.array_equal(da["x"].values, xs) and np.array_equal(da["y"].values, ys)) or set(da.attrs) != set(res_attrs(c)):
+                r.disagree("wrapper-glue", dict(stream="wrapper", terrain=c), "coordinates / attrs of the input DataArray changed", "untouched")
+            if str(da.dtype) != "float64" or not np.array_equal(da.values, a.astype(np.float64)):
+                r.disagree("wrapper-glue", dict(stream="wrapper", terrain=c), f"input DataArray afterwards: dtype {da.dtype}",
+                           "the same values cast to float64 (in place, the documented exception)")
+        if mode == "in":
+            why = oracle_public(c, pub)
+            if why:
+                r.fail("visibility", why, c)
+    replies = Driver().ask(reqs)
+    # second round: the model's events at the model's observer cell
+    ev_reqs, ev_idx = [], []
+    for k, ((c, mode, x, y, pub, rec, err), rep) in enumerate(zip(meta, replies)):
+        if err is None and not rep.startswith(("err", "bad")):
+            f = dict(p.split("=", 1) for p in rep.split(" ") if "=" in p)
+            a, xs, ys, ew, ns, velev, vt = terrain_setup(c)
+            ev_reqs.append(f"vs_events grid={grid_tok(a.astype(np.float64))} vr={f['vr']} vc={f['vc']} ew={f['ew']} ns={f['ns']}")
+            ev_idx.append(k)
+    ev_rep = dict(zip(ev_idx, Driver().ask(ev_reqs))) if ev_reqs else {}
+    for k, ((c, mode, x, y, pub, rec, err), rep) in enumerate(zip(meta, replies)):
+        case = dict(stream="wrapper", terrain=c, mode=mode, x=x, y=y)
+        if err is not None:
+            if rep != "err:" + err:
+                r.disagree("wrapper-glue", case, f"viewshed raised {err}", f"model: {rep[:100]}")
+            r.tag("wrapper:rejected-" + err)
+            continue
+        if rep == "err:ValueError":
+            r.disagree("wrapper-glue", case, "viewshed returned a result", "model: err:ValueError")
+            continue
+        for d in compare_wrapper(c, rec, rep, ev_rep.get(k))[:3]:
+            r.disagree("wrapper-glue", case, "real " + d, "Model/ViewshedWrapper.lean (exact)")
+        r.tag("wrapper:kernel-arguments-compared-exactly")
 
 
 # ---------------------------------------------------------------- fast search (numba)
@@ -1403,7 +1861,7 @@ def seam123(r, n_terr, maxs, tree_level_every):
                tags=["terrain:" + c["kind"], "dtype:" + c["dtype"], f"oe:{c['oe']}", f"te:{c['te']}",
                      "cells:square" if c["dx"] == c["dy"] else "cells:non-square",
                      "observer:" + ("corner" if (c["vr"] in (0, h - 1) and c["vc"] in (0, w - 1)) else "edge" if edge else "inner"),
-                     f"size:{'<=5' if max(h, w) <= 5 else '<=10' if max(h, w) <= 10 else '>10'}"])
+                     f"size:{'<=5' if max(h, w) <= 5 else '<=10' if max(h, w) <= 10 else '>10'}"] + coord_tags(c))
         if why:
             r.fail("visibility", why, c)
             continue
@@ -1526,11 +1984,18 @@ def run(r):
     V()
     r.rule = ("terrains 2x2..15x15 (thorough 30x30) over small alphabets / plane+bumps / plateaus / dyadics / ints / flat / "
               "row-relief (tall cells in the lines adjacent to one of the observer's four axis rays), "
-              "dtypes f8 f4 i4 i8, every observer cell incl. corners and edges, observer_elev in {-1,0,1,5}, target_elev in "
-              "{0,2}, square and non-square cells, observer given off-centre; tree sequences: pools 6/12/40 of distinct "
+              "dtypes f8 f4 i8 i4 i2 u1 u2 i1 (narrow ones also near the top of their range), every observer cell incl. corners and edges, observer_elev in {-1,-0.5,0,0.5,1,5}, target_elev in "
+              "{0,0.5,1,2}, square and non-square cells; DataArray kinds for everything that goes through viewshed(): x / y "
+              "ascending or descending, dyadic steps 0.25..30, origins up to 4.1e6, observer given at a centre / off-centre (nearest "
+              "centre) / clamped to the edge / (wrapper seam only) exactly half way and outside, attrs['res'] absent / consistent / "
+              "STALE (scalar, tuple, list, ndarray; different factors per axis) -- the reference always uses the coordinate "
+              "spacing and the nearest centre; cell-size scale classes 2^-20 .. 2^20 coordinate units per cell with the heights "
+              "scaled along; long thin rasters (3..5 x 1200..1700, flat + low bumps whose corners graze the sight lines to "
+              "far cells) judged by the compiled O(n^2) reference; tree sequences: pools 6/12/40 of distinct "
               "keys, gradients from alphabets of 2/3/5 values (ties) or dyadics, queries at bearings all nodes span; "
               "non-trivial = not a flat terrain / any tree sequence")
-    r.trusted += ["numba compilation of viewshed.py == its interpreted source (checked per tree operation)",
+    r.trusted += ["xarray / pandas `sel(method='nearest')` (compared with the model's nearest-centre rule on every wrapper case, ties included)",
+                  "numba compilation of viewshed.py == its interpreted source (checked per tree operation)",
                   "float: IEEE + - * / and comparisons agree between numba and Lean `Float`"]
     r.assumptions += ["seams 1-2 take angles and gradients (atan, sqrt) from the real helper functions; the end-to-end oracle "
                       "recomputes every cell's node from the terrain geometry (atan2, exact cross products) and skips a cell "
@@ -1548,6 +2013,8 @@ def run(r):
     seam123(r, n_terr=60 if quick else 1000, maxs=9 if quick else 15, tree_level_every=6 if quick else 10)
     if not quick:
         seam123(r, n_terr=20, maxs=30, tree_level_every=100)
+    wrapper_seam(r, n=300 if quick else 3000, maxs=6 if quick else 9)
+    long_thin(r, n=12 if quick else 60)
     n = fast_search(r, 12 if quick else 300, 10 if quick else 16)
     r.tag("fast-reference-terrains", n)
     if not r.failures:
@@ -1565,6 +2032,26 @@ def search(r):
             if why:
                 r.fail("visibility", why, c)
                 return
+    # cheap and different in kind from the small-terrain searches: DataArray kinds (coordinates, attrs, cell-size scales)
+    # on small terrains, then long thin rasters with grazing bumps
+    for _ in range(200 if r.tier == "quick" else 2000):
+        c = gen_wrapper_case(r.rng, 6)
+        try:
+            why = oracle_public(c, public_viewshed(c)[0])
+        except Exception as ex:
+            why = f"viewshed raised {type(ex).__name__}: {ex}"
+        if why:
+            r.fail("visibility", why, c)
+            return
+    for _ in range(30 if r.tier == "quick" else 200):
+        c = gen_long_thin(r.rng)
+        try:
+            why = oracle_public(c, public_viewshed(c)[0])
+        except Exception as ex:
+            why = f"viewshed raised {type(ex).__name__}: {ex}"
+        if why:
+            r.fail("visibility", why, c)
+            return
     n = fast_geo_search(r, 40 if r.tier == "quick" else 400, 12 if r.tier == "quick" else 18, per=200)
     r.tag("search:fast-geometric-reference-terrains", n)
     if not r.failures:
